@@ -471,6 +471,17 @@ def analyse(prog, fn, ev, bname):
         idxs, mode = None, "eff"
         if nm in RAW_SINKS:
             idxs, mode = RAW_SINKS[nm], "raw"
+            # the pointer argument by type: a `&mut self` serialiser has the pointer second
+            try:
+                hs_ = [h for h in mir.CURRENT.resolve(cs.callee) if h.kind != "Closure"] if mir.CURRENT is not None else []
+            except Exception:
+                hs_ = []
+            if len(hs_) == 1:
+                pi = [i_ for i_ in range(len(cs.args)) if i_ + 1 < len(hs_[0].locals) and
+                      ("BddPtr" in hs_[0].locals[i_ + 1]["s"] or "SddPtr" in hs_[0].locals[i_ + 1]["s"]) and
+                      "HashMap" not in hs_[0].locals[i_ + 1]["s"] and "Vec" not in hs_[0].locals[i_ + 1]["s"]]
+                if pi:
+                    idxs = (pi[0],)
         elif nm in SINKS and (cs.callee.local or cs.callee.res_local or (cs.callee.trait or "").startswith(("builder::", "repr::"))
                               or nm in ("eq",) and "Ptr" in key):
             idxs = SINKS[nm]
@@ -907,7 +918,10 @@ def serializer_flags(prog):
         if t[0] == "agg" and t[3] == "Ptr" and "compl" in t[5]:
             n += 1
             c = strip(t[4][t[5].index("compl")])
-            if not (mir.is_call(c, "is_neg") and strip(c[2][0]) == ("param", 1)):
+            # the pointer parameter, wherever it sits in the signature (a `&mut self` serialiser shifts it)
+            ptr_params = [("param", i_) for i_ in range(1, len(fn.locals)) if "BddPtr" in fn.locals[i_]["s"] and
+                          "HashMap" not in fn.locals[i_]["s"] and "Vec" not in fn.locals[i_]["s"]] or [("param", 1)]
+            if not (mir.is_call(c, "is_neg") and strip(c[2][0]) in ptr_params[:1]):
                 errs.append("compl flag is %s, expected is_neg(ptr)" % show(c)[:60])
             continue
         errs.append("a returned pointer is not built for the current edge (%s): its complement flag is that of another "
